@@ -515,25 +515,23 @@ def gen_joiner_prog(pid, rng):
     p.tags = ["joiner", "rand"]
     n = rng.randint(1, 4)
     single_step = p.joiner == "Transposed"
-    # `transpose_results(false)` in every step of the sequential try macro: the joiner's Ok tuple is taken apart between the
-    # steps, so the next step of a branch continues from the unwrapped value (its first action is a `->` taking a Val);
-    # all branches have the same depth (a finished branch would meet the final transposer unwrapped)
+    # `transpose_results(false)` in every step of the sequential try macro: the joiner's output is the already transposed
+    # Result in every step, and the next step of a branch continues from its own (re-wrapped) Result, exactly as in the async
+    # try macros. (Until fix of /repo "wrap the values of a step again" the sync path handed bare values to the next step;
+    # these programs had been adapted to that — steps continued through a `->` taking a Val, equal depths only — which was
+    # too lenient.)
     p.sync_transposed = single_step and pid % 2 == 1
     if p.sync_transposed:
         n = rng.randint(2, 4)
         single_step = False
-        eq_depth = rng.randint(2, 3)
     for bi in range(n):
-        d = 1 if single_step else (eq_depth if p.sync_transposed else rng.randint(1, 3))
+        d = 1 if single_step else rng.randint(1, 3)
         steps = []
         for k in range(d):
             acts = []
             if k == 0:
                 acts.append(Act("Src", p.nid()))
                 acts += gen_simple_ops(p, rng, rng.randint(0, 2), allow_or=False)
-            elif p.sync_transposed:
-                acts.append(Act("ThenV", p.nid()))
-                acts += gen_simple_ops(p, rng, rng.randint(0, 2), allow_or=False, caps=0.2)
             else:
                 acts += gen_simple_ops(p, rng, rng.randint(1, 2), allow_or=False, caps=0.2)
             steps.append(acts)
